@@ -48,8 +48,8 @@ def run_property(P, tier, seed, replay=None):
          nontrivial(case) -> bool, describe_sample(case, impl) -> json-able, level_text..."""
     rep = Report(P.prop, tier, seed)
     rng = random.Random(seed)
-    if replay:
-        rep.is_replay = True
+    if replay or os.path.isdir(os.path.join(build.VERIF, "corpus", P.prop)):
+        rep.is_replay = bool(replay)
         # a replay line whose generating case cannot be recovered carries no meta: describe it by its text
         def _guard(f, default):
             def g(*a):
@@ -60,6 +60,7 @@ def run_property(P, tier, seed, replay=None):
         P.classify = _guard(P.classify, lambda c, i: i.split(":", 1)[0][:10])
         P.nontrivial = _guard(P.nontrivial, lambda c, i: True)
         P.known = _guard(P.known, lambda c, i, d: None)
+        P.compare = _guard(P.compare, lambda c, i, m: None)
     try:
         b = build.ensure_built(release=getattr(P, "needs_release", False))
     except build.BuildError as e:
@@ -135,8 +136,8 @@ def run_property(P, tier, seed, replay=None):
         try:
             verdict, detail = P.oracle(c, i)
         except Exception as e:
-            if not replay: raise
-            verdict, detail = "unknown", "oracle not applicable to a bare replay line (%s)" % type(e).__name__
+            if not replay and c.gen != "corpus": raise
+            verdict, detail = "unknown", "oracle not applicable to a bare replay / corpus line (%s)" % type(e).__name__
         k = None
         if verdict == "violates":
             k = P.known(c, i, detail)
